@@ -53,7 +53,8 @@ def gen_tree(rng: Any, *, max_depth: int = 4, max_fanout: int = 4, max_nodes: in
     def make(path: str, alias: str, depth: int) -> None:
         shape = rng.choice(["none", "prepare", "start", "both", "both", "start"])
         node = {"path": path, "alias": alias, "has_prepare": shape in ("prepare", "both"), "has_start": shape in ("start", "both"),
-                "prepare": [], "start": [], "children": [], "via_config": rng.random() < 0.4}
+                "prepare": [], "start": [], "children": [], "via_config": rng.random() < 0.4, "methods_in_base": rng.random() < 0.3,
+                "naming": rng.choice(["class", "class", "class", "ref", "entrypoint"])}
         nodes[path] = node
         counter[0] += 1
         if depth < max_depth:
@@ -316,17 +317,51 @@ class Run:
                     run.log("fail", path, phase="creating")
                     raise run.injected
                 for c in hard_children:
-                    self.add_component(nodes[c]["alias"], run.classes[c])
+                    self.add_component(nodes[c]["alias"], run.type_arg(c), **run.extra_kwargs(c))
 
             ns: dict[str, Any] = {"__init__": __init__}
+            methods: dict[str, Any] = {}
             for phase in ("prepare", "start"):
                 if node[f"has_{phase}"]:
-                    ns[phase] = run.make_phase(path, phase)
-            return type("Comp_" + (path.replace(".", "_").replace("/", "__") or "root"), (Component,), ns)
+                    methods[phase] = run.make_phase(path, phase)
+            cname = "Comp_" + (path.replace(".", "_").replace("/", "__") or "root")
+            if node.get("naming") == "entrypoint":
+                # a static fixture class reached through a real entry point; behaviour delegated per instance
+                import verif_fixture_components as vf
+
+                vf.REGISTRY[path] = {"ctor": __init__, **methods}
+                return vf.BY_SHAPE[(node["has_prepare"], node["has_start"])][1]
+            if node.get("methods_in_base") and methods:
+                # prepare()/start() inherited from an intermediate base class / mixin instead of defined in the class body
+                base = type("Base_" + cname, (Component,), methods)
+                return type(cname, (base,), ns)
+            ns.update(methods)
+            return type(cname, (Component,), ns)
 
         # children first so that parents can refer to them
+        import sys
+        import types as _types
+
+        dyn = sys.modules.setdefault("verif_dyn_components", _types.ModuleType("verif_dyn_components"))
         for path in sorted(nodes, key=lambda p: -p.count(".") - (1 if p else 0)):
-            self.classes[path] = make_class(path)
+            cls = self.classes[path] = make_class(path)
+            if nodes[path].get("naming") == "ref":
+                setattr(dyn, cls.__name__, cls)  # reachable as "verif_dyn_components:<name>"
+
+    def type_arg(self, path: str) -> Any:
+        """how the type of this node is named: class object, `module:attr` reference or entry-point name"""
+        node = self.tree["nodes"][path]
+        naming = node.get("naming", "class")
+        if naming == "ref":
+            return f"verif_dyn_components:{self.classes[path].__name__}"
+        if naming == "entrypoint":
+            import verif_fixture_components as vf
+
+            return vf.BY_SHAPE[(node["has_prepare"], node["has_start"])][0]
+        return self.classes[path]
+
+    def extra_kwargs(self, path: str) -> dict[str, Any]:
+        return {"verif_path": path} if self.tree["nodes"][path].get("naming") == "entrypoint" else {}
 
     def config_for(self, path: str) -> dict[str, Any]:
         nodes = self.tree["nodes"]
@@ -334,7 +369,8 @@ class Run:
         for c in nodes[path]["children"]:
             sub = self.config_for(c)
             if nodes[c]["via_config"]:
-                sub["type"] = self.classes[c]
+                sub["type"] = self.type_arg(c)
+                sub.update(self.extra_kwargs(c))
             if sub or nodes[c]["via_config"]:
                 comps[nodes[c]["alias"]] = sub
         return {"components": comps} if comps else {}
@@ -470,7 +506,7 @@ class Run:
                 self.t_call = anyio.current_time()
                 self.log("call", "harness", timeout=timeout)
                 try:
-                    self.returned = await start_component(self.classes[""], config, timeout=timeout)
+                    self.returned = await start_component(self.type_arg(""), {**config, **self.extra_kwargs("")}, timeout=timeout)
                 except BaseException as e:
                     self.raised = e
                     self.log("raised", "harness", exc=describe_exc(e))
